@@ -1,5 +1,10 @@
 pub mod c08;
+pub mod c09;
+pub mod c10;
+pub mod c11;
+pub mod c18;
 pub mod common;
+pub mod iff;
 
 use crate::mon::Check;
 
@@ -16,6 +21,10 @@ pub fn std_assumptions() -> Vec<String> {
 pub fn get(id: &str) -> Option<Box<dyn Check>> {
     match id {
         "C08" => Some(Box::new(c08::C08)),
+        "C09" => Some(Box::new(c09::C09)),
+        "C10" => Some(Box::new(c10::C10)),
+        "C11" => Some(Box::new(c11::C11)),
+        "C18" => Some(Box::new(c18::C18)),
         _ => None,
     }
 }
